@@ -19,6 +19,11 @@ func (sel *Selection) Find(path string) (*Selection, error) {
 			return nil, fmt.Errorf("%w. no parent path to resolve %s", fc.NotFoundError, p)
 		}
 		p = p[3:]
+		if s.InsideList && s.parent.parent != nil {
+			// a list entry ("l=a") is one step of the path, but its parent
+			// selection is the list it sits in: go up past that one too
+			s = s.Parent()
+		}
 		s = s.Parent()
 	}
 	s, err := s.makeCopy()
